@@ -93,6 +93,7 @@ class SimTerm:
         self.selects = 0
         self.max_wait = 0.0
         self.log = []
+        self._t_reset = 0.0
 
     # -- configuration ---------------------------------------------------------------
     def reset(self, profile=None, zero_clock=False):
@@ -108,6 +109,7 @@ class SimTerm:
         self.selects = 0
         self.max_wait = 0.0
         self.log = []
+        self._t_reset = self.now
 
     # -- clock --------------------------------------------------------------------------
     def monotonic(self):
@@ -202,6 +204,10 @@ class SimTerm:
     # -- the patched select --------------------------------------------------------------
     def select(self, r, w, x, timeout=None):
         self.selects += 1
+        if self.now - self._t_reset > 120.0 or self.selects > 200000:
+            # minutes of virtual time / an endless poll loop inside one library call: it never gives up
+            raise UnboundedWait(f"the call keeps waiting ({self.now - self._t_reset:.1f}s of virtual time, "
+                                f"{self.selects} select() calls) instead of timing out")
         fd = r[0]
         self._handle_requests()
         self._deliver_due(self.now)
